@@ -75,6 +75,13 @@ MeanOf(P, i, x, O) == LET h == Hidden(P, i, x)
 (* raw head value of output k soft-clamped with the bounds of output k *)
 LogVarOf(P, i, O) == [k \in 1..O |-> [raw |-> P.lb[i][k], out |-> k]]
 
+(* learned bounds: Lo_k = -20 + 20 sigmoid(rmin[k]) in (-20, 0), Hi_k = -4 + 9 sigmoid(rmax[k]) in (-4, 5); *)
+(* sigmoid is uninterpreted: only its range and monotonicity are used (D4)                          *)
+LoRange == << -20, 0 >>
+HiRange == << -4, 5 >>
+RankIn(seq, v) == CHOOSE t \in 1..Len(seq) : seq[t] = v     \* RawMin / RawMax are listed in no particular order:
+OrderOf(seq, v) == Cardinality({t \in 1..Len(seq) : seq[t] < v})   \* rank = number of smaller entries
+
 (* ------------------------------------------- GaussianMLPEnsemble.__call__ --- *)
 (* rows : Seq of input vectors, the same for every member (x.ndim = 2)        *)
 Joint(P, E, O, rows) ==
@@ -170,6 +177,9 @@ Expected(i) ==
        member_mean |-> M.mean, member_mean_shape |-> M.meanShape, member_var_shape |-> M.varShape,
        dist_batch_shape |-> M.batchShape, dist_event_shape |-> M.eventShape,
        call_accepts_vector |-> CallAccepts(1),
+       lo_range |-> LoRange, hi_range |-> HiRange,
+       lo_order |-> [k \in 1..cfg.O |-> OrderOf(RawMin, par.rmin[k])],
+       hi_order |-> [k \in 1..cfg.O |-> OrderOf(RawMax, par.rmax[k])],
        agg_mean |-> A.mean, agg_epi |-> A.epi, agg_vcoef |-> A.vcoef, agg_shape |-> A.shape ]
 
 Emit(i) == EMIT => PrintT(<<"EMIT", ToJson([cfg |-> cfg, par |-> par, inp |-> inp, member |-> i, exp |-> Expected(i)])>>)
